@@ -161,8 +161,35 @@ func R18() Rule {
 		}
 		// (b) error discipline
 		evaluator := map[*ssa.Function]bool{fRow: true, fInc: true, fMod: true, fCells: true}
+		evalList := []*ssa.Function{fRow, fInc, fMod, fCells}
+		// per-kind helpers the evaluator is split into: reachable from it, take (part of) a row and return an error
+		for _, root := range []*ssa.Function{fRow, fInc, fMod, fCells} {
+			for _, f := range P.Scope(root, func(f *ssa.Function) bool { return core.PkgPathOf(f) != core.PkgBttest }) {
+				if evaluator[f] || f.Parent() != nil || f.Synthetic != "" || !lastResultIsErrorType(f) {
+					continue
+				}
+				takesRowPart := false
+				for _, pa := range f.Params {
+					t := pa.Type()
+					if sl, ok := t.Underlying().(*types.Slice); ok {
+						t = sl.Elem()
+					}
+					if n := core.NamedOf(t); n != nil && n.Obj().Pkg() != nil && n.Obj().Pkg().Path() == pkgBtpb {
+						switch n.Obj().Name() {
+						case "Row", "Family", "Column", "Cell":
+							takesRowPart = true
+						}
+					}
+				}
+				if takesRowPart {
+					evaluator[f] = true
+					evalList = append(evalList, f)
+					c.Fn(core.FuncName(f))
+				}
+			}
+		}
 		nErr := 0
-		for _, fn := range []*ssa.Function{fRow, fInc, fMod, fCells} {
+		for _, fn := range evalList {
 			k := 0
 			for _, r := range returnsIn(fn) {
 				last := r.Results[len(r.Results)-1]
@@ -216,6 +243,28 @@ func R18() Rule {
 								// dominating branch between the case entry and the return
 								if r.Block() != ob {
 									found = true
+								}
+							}
+						}
+					}
+					// … or the case hands the filter to a per-kind helper that rejects conditionally
+					for _, hb := range fn.Blocks {
+						if hb != ob && !ob.Dominates(hb) {
+							continue
+						}
+						for _, in := range hb.Instrs {
+							ci := core.Call(in)
+							if ci == nil || ci.Static == nil || !evaluator[ci.Static] || ci.Static == fRow || ci.Static == fInc || ci.Static == fMod || ci.Static == fCells {
+								continue
+							}
+							for _, r := range returnsIn(ci.Static) {
+								if r.Block() == ci.Static.Blocks[0] {
+									continue
+								}
+								for _, v := range returnValues(r.Results[len(r.Results)-1]) {
+									if isInvalidArgumentStatus(v) {
+										found = true
+									}
 								}
 							}
 						}
@@ -285,14 +334,16 @@ func R19(group string) Rule {
 			fRow := P.MustFunc(core.PkgBttest, "filterRow")
 			c.Fn("filterRow")
 			nInter, nPred := 0, 0
-			for _, call := range callsTo(fRow, core.PkgBttest, "filterRow") {
-				chain := strings.Join(fieldChain(call.Call.Args[0]), ".")
+			// recursive evaluations in filterRow or the per-kind helpers it is split into
+			fscope := P.Scope(fRow, func(f *ssa.Function) bool { return core.PkgPathOf(f) != core.PkgBttest || f.Name() == "copyRow" })
+			for _, call := range scopeCallsTo(fscope, core.PkgBttest, "filterRow") {
+				chain := strings.Join(ownerFieldChain(call.Call.Args[0]), " ")
 				switch {
-				case strings.Contains(chain, "Interleave"):
+				case strings.Contains(chain, "RowFilter_Interleave.Filters"):
 					nInter++
 					c.Check(isCopyRowCall(call.Call.Args[1]), "R19", fmt.Sprintf("filter/interleave-branch#%d", nInter), call.Pos(),
 						"each interleave branch is evaluated on copyRow(r)", "an interleave branch is evaluated on the shared row: one branch's filtering is visible to the next (branches are not independent)")
-				case strings.Contains(chain, "PredicateFilter"):
+				case strings.Contains(chain, "RowFilter_Condition.PredicateFilter"):
 					nPred++
 					c.Check(isCopyRowCall(call.Call.Args[1]), "R19", fmt.Sprintf("filter/condition-predicate#%d", nPred), call.Pos(),
 						"the condition predicate is evaluated on copyRow(r)", "the condition predicate is evaluated on the row itself: the selected branch then filters a row already stripped by the predicate")
@@ -501,4 +552,51 @@ func mutationChoice(P *core.Program, v ssa.Value) (cond ssa.Value, polarityOK bo
 		}
 	}
 	return nil, false, false
+}
+
+func lastResultIsErrorType(f *ssa.Function) bool {
+	res := f.Signature.Results()
+	return res.Len() > 0 && isErrorType(res.At(res.Len()-1).Type())
+}
+
+// ownerFieldChain is fieldChain with each field qualified by the struct type it
+// belongs to ("RowFilter_Interleave.Filters"), so that a value is recognised by
+// what it is a part of even when the enclosing message is a helper's parameter.
+func ownerFieldChain(v ssa.Value) []string {
+	var out []string
+	add := func(x ssa.Value, structT types.Type, idx int) {
+		n := core.NamedOf(structT)
+		_, f, _ := core.FieldName(x)
+		if n != nil {
+			out = append([]string{n.Obj().Name() + "." + f}, out...)
+		} else {
+			out = append([]string{f}, out...)
+		}
+	}
+	for i := 0; i < 12; i++ {
+		v = core.Resolve(v)
+		switch x := v.(type) {
+		case *ssa.UnOp:
+			v = x.X
+		case *ssa.IndexAddr:
+			v = x.X
+		case *ssa.Index:
+			v = x.X
+		case *ssa.FieldAddr:
+			add(x, x.X.Type(), x.Field)
+			v = x.X
+		case *ssa.Field:
+			add(x, x.X.Type(), x.Field)
+			v = x.X
+		case *ssa.Extract:
+			v = x.Tuple
+		case *ssa.Next:
+			v = x.Iter
+		case *ssa.Range:
+			v = x.X
+		default:
+			return out
+		}
+	}
+	return out
 }
